@@ -56,6 +56,7 @@ fn affine(m: &MDesc, n: u64, class: usize, seed: u64, r: &mut Report) {
 	let len = (3 * n as usize + 60).min(500);
 	let xs = gen::values(class, seed, len, n as usize);
 	let Some(base) = run_v(m, &par, &xs) else { return };
+	r.case_named(m.name, &[15, n, crate::reg::f64s_hash(&xs)]);
 	let mag = xs.iter().fold(0.0f64, |a, b| a.max(b.abs()));
 	if !(mag > 0.0) || mag > 1e100 || xs.iter().any(|x| x.abs() < 1e-100 && *x != 0.0) {
 		return; // keep clear of under/overflow, where scaling does not commute with rounding
@@ -138,6 +139,7 @@ pub fn constant(m: &MDesc, n: u64, r: &mut Report) {
 		let v = gen::q(v);
 		let xs = vec![v; 3 * n as usize + 10];
 		let Some(out) = run_v(m, &par, &xs) else { continue };
+		r.case_named(m.name, &[151, n, v.to_bits()]);
 		r.eval(xs.len() as u64);
 		for (i, o) in out.iter().enumerate() {
 			// "reproduced" up to the method's own allowance (e.g. RMA's fixed point is x(1 +- n eps/2) because
@@ -157,6 +159,7 @@ fn containment(m: &MDesc, n: u64, class: usize, seed: u64, r: &mut Report) {
 	let len = (4 * n as usize + 100).min(700);
 	let xs = gen::values(class, seed, len, n as usize);
 	let Some(out) = run_v(m, &par, &xs) else { return };
+	r.case_named(m.name, &[152, n, crate::reg::f64s_hash(&xs)]);
 	let horizon: Option<usize> = match m.name {
 		"SMA" | "WMA" | "SWMA" | "SMM" => Some(n as usize),
 		"TRIMA" => Some(2 * n as usize - 1),
@@ -193,6 +196,7 @@ fn superposition(m: &MDesc, n: u64, class: usize, seed: u64, r: &mut Report) {
 	let xs = gen::values(6, seed, len, n as usize);
 	let zs = gen::values(if class % 2 == 0 { 6 } else { 5 }, seed ^ 0x55, len, n as usize);
 	let sum: Vec<f64> = xs.iter().zip(zs.iter()).map(|(a, b)| a + b).collect();
+	r.case_named(m.name, &[153, n, crate::reg::f64s_hash(&xs), crate::reg::f64s_hash(&zs)]);
 	let (Some(a), Some(b), Some(c)) = (run_v(m, &par, &xs), run_v(m, &par, &zs), run_v(m, &par, &sum)) else { return };
 	let mag = xs.iter().chain(zs.iter()).chain(sum.iter()).fold(0.0f64, |m, x| m.max(x.abs()));
 	r.eval(len as u64);
@@ -278,6 +282,7 @@ pub fn impulse(m: &MDesc, n: u64, r: &mut Report) {
 	let mut xs = vec![0.0; lead + len];
 	xs[lead] = 1.0;
 	let Some(out) = run_v(m, &par, &xs) else { return };
+	r.case_named(m.name, &[154, n]);
 	let prof = impulse_profile(m.name, n as usize, len);
 	if prof.is_empty() {
 		return;
@@ -312,6 +317,7 @@ fn conv_and_vwma(ctx: &Ctx, r: &mut Report) {
 			continue;
 		}
 		let par = Par::W(w.iter().map(|x| *x as V).collect());
+		r.case_named("Conv", &[155, crate::reg::f64s_hash(&w)]);
 		let mut xs = vec![0.0; m + 8];
 		xs[2] = 1.0;
 		if let Some(out) = run_v(&conv, &par, &xs) {
@@ -367,6 +373,7 @@ fn conv_and_vwma(ctx: &Ctx, r: &mut Report) {
 			.flatten()
 		};
 		if let Some(base) = run(&st) {
+			r.case_named("VWMA", &[156, n, crate::reg::ins_hash(&st)]);
 			r.eval(st.len() as u64);
 			let scaled: Vec<In> = st.iter().map(|x| if let In::P(p, v) = x { In::P((*p as f64 * -8.0) as V, (*v as f64 * 4.0) as V) } else { x.clone() }).collect();
 			if let Some(o2) = run(&scaled) {
